@@ -9,6 +9,7 @@ import (
 	"path/filepath"
 	"strconv"
 	"strings"
+	"sync"
 	"sync/atomic"
 	"time"
 
@@ -43,6 +44,31 @@ func c20opsLine(ops []c20op) string {
 	return "c20 seq " + strings.Join(parts, ",")
 }
 
+// c20leanLine is the history as the model sees it: the harness-only calls are spelled out with the
+// bytes they carried on the real queue (`E`/`R` = Enqueue/Requeue of a nil slice -> an empty chunk;
+// `p`/`P` = Requeue of the last result / of its second half -> Requeue of those bytes).
+func c20leanLine(ops []c20op) string {
+	if len(ops) == 0 {
+		return "c20 seq ."
+	}
+	parts := make([]string, len(ops))
+	for i, o := range ops {
+		switch o.kind {
+		case 'e', 'r':
+			parts[i] = string(o.kind) + vlib.Hex(o.b)
+		case 'E':
+			parts[i] = "e-"
+		case 'R':
+			parts[i] = "r-"
+		case 'p', 'P':
+			parts[i] = "r" + vlib.Hex(o.b)
+		default:
+			parts[i] = string(o.kind)
+		}
+	}
+	return "c20 seq " + strings.Join(parts, ",")
+}
+
 func c20parseLine(line string) ([]c20op, bool) {
 	f := strings.Fields(line)
 	if len(f) != 3 || f[0] != "c20" || f[1] != "seq" {
@@ -63,6 +89,8 @@ func c20parseLine(line string) ([]c20op, bool) {
 				return nil, false
 			}
 			o.b = b
+		} else if !strings.ContainsRune("dagERpP", rune(t[0])) || len(t) != 1 {
+			return nil, false
 		}
 		ops = append(ops, o)
 	}
@@ -73,42 +101,139 @@ func c20parseLine(line string) ([]c20op, bool) {
 // block forever if the depth token is lost).
 var c20progress atomic.Int64
 
-// c20runImpl runs one history on a fresh real queue; results in the driver's notation.
-func c20runImpl(ops []c20op) (outs []string, depth int) {
+type c20implRes struct {
+	outs  []string
+	depth int
+	note  string         // a retained result changed after it was returned
+	pins  map[string]int // pinned nil-vs-empty behaviours that were seen
+}
+
+// c20runImpl runs one history on a fresh real queue; results in the driver's notation. It fills in
+// the bytes of the `p` / `P` calls (they depend on what the queue returned), keeps every returned
+// slice and verifies at the end that none of them changed afterwards (a result belongs to the
+// caller), overwrites DequeueAll results it no longer needs (the caller may), and tracks which
+// chunks were inserted as nil so that the one place where nil-ness is observable is pinned:
+// Dequeue hands back the very slice that was inserted.
+func c20runImpl(ops []c20op) (res c20implRes) {
+	res.pins = map[string]int{}
 	defer func() {
 		if r := recover(); r != nil {
-			outs = append(outs, "!panic")
+			res.outs = append(res.outs, "!panic")
 		}
 	}()
+	type kept struct {
+		s, snap  []byte
+		op       int
+		all, req bool
+	}
+	var keeps []*kept
+	var last *kept
+	var nils []bool // reference: which chunks of the list were inserted as nil
+	obtained := func(i int, b []byte, all bool) {
+		if last != nil && last.all && !last.req && len(last.s) > 0 {
+			// the caller is done with the previous DequeueAll buffer and reuses it
+			if bytes.Equal(last.s, last.snap) {
+				for k := range last.s {
+					last.s[k] = 0xEE
+				}
+				copy(last.snap, last.s)
+			}
+		}
+		k := &kept{s: b, snap: append([]byte{}, b...), op: i, all: all}
+		keeps = append(keeps, k)
+		last = k
+	}
 	q := util.NewQueue()
-	for _, o := range ops {
+	for i := range ops {
+		o := &ops[i]
 		c20progress.Add(1)
 		switch o.kind {
 		case 'e':
 			q.Enqueue(append(make([]byte, 0, len(o.b)), o.b...)) // non-nil even when empty
-			outs = append(outs, "u")
+			nils = append(nils, false)
+			res.outs = append(res.outs, "u")
 		case 'r':
 			q.Requeue(append(make([]byte, 0, len(o.b)), o.b...))
-			outs = append(outs, "u")
+			nils = append([]bool{false}, nils...)
+			res.outs = append(res.outs, "u")
+		case 'E':
+			q.Enqueue(nil)
+			nils = append(nils, true)
+			res.outs = append(res.outs, "u")
+		case 'R':
+			q.Requeue(nil)
+			nils = append([]bool{true}, nils...)
+			res.outs = append(res.outs, "u")
+		case 'p', 'P':
+			b := []byte("Z")
+			if last != nil {
+				b = last.s
+				if o.kind == 'P' {
+					b = b[len(b)/2:]
+				}
+				last.req = true
+			}
+			o.b = append([]byte{}, b...)
+			q.Requeue(b)
+			nils = append([]bool{false}, nils...)
+			res.outs = append(res.outs, "u")
 		case 'd':
 			b := q.Dequeue()
-			if b == nil {
-				outs = append(outs, "n")
-			} else {
-				outs = append(outs, "b"+vlib.Hex(b))
+			headNil := len(nils) > 0 && nils[0]
+			if len(nils) > 0 {
+				nils = nils[1:]
+			}
+			switch {
+			case b == nil && headNil:
+				// pinned: a chunk inserted as nil comes back as nil — the caller cannot tell it from
+				// "nothing", but it carries no bytes; for the comparison it is the empty chunk
+				res.pins["pin:dequeue-of-nil-chunk-is-nil"]++
+				res.outs = append(res.outs, "b-")
+			case b == nil:
+				res.outs = append(res.outs, "n")
+			default:
+				if len(b) == 0 {
+					res.pins["pin:dequeue-of-empty-chunk-is-non-nil-empty"]++
+				}
+				res.outs = append(res.outs, "b"+vlib.Hex(b))
+				obtained(i, b, false)
 			}
 		case 'a':
 			b := q.DequeueAll()
+			had := len(nils)
+			nils = nil
 			if b == nil {
-				outs = append(outs, "n")
+				if had > 0 {
+					res.pins["obs:dequeueall-zero-bytes-is-nil"]++
+				}
+				res.outs = append(res.outs, "n")
 			} else {
-				outs = append(outs, "b"+vlib.Hex(b))
+				if len(b) == 0 {
+					res.pins["obs:dequeueall-zero-bytes-is-non-nil-empty"]++
+				}
+				res.outs = append(res.outs, "b"+vlib.Hex(b))
+				obtained(i, b, true)
 			}
 		case 'g':
-			outs = append(outs, "i"+strconv.Itoa(q.GetDepth()))
+			res.outs = append(res.outs, "i"+strconv.Itoa(q.GetDepth()))
 		}
 	}
-	return outs, q.GetDepth()
+	res.depth = q.GetDepth()
+	for _, k := range keeps {
+		if !bytes.Equal(k.s, k.snap) {
+			res.note = fmt.Sprintf("the slice returned by call %d (%s) held %q when it was returned and holds %q after the later calls", k.op+1,
+				map[bool]string{true: "DequeueAll", false: "Dequeue"}[k.all], c20clip(k.snap), c20clip(k.s))
+			break
+		}
+	}
+	return res
+}
+
+func c20clip(b []byte) []byte {
+	if len(b) > 24 {
+		return b[:24]
+	}
+	return b
 }
 
 func c20join(outs []string) string {
@@ -140,7 +265,7 @@ func c20firstDiff(ops []c20op, a, b string) string {
 		if fa[i] != fb[i] {
 			k := "?"
 			if i < len(ops) {
-				k = map[byte]string{'e': "Enqueue", 'r': "Requeue", 'd': "Dequeue", 'a': "DequeueAll", 'g': "GetDepth"}[ops[i].kind]
+				k = map[byte]string{'e': "Enqueue", 'r': "Requeue", 'd': "Dequeue", 'a': "DequeueAll", 'g': "GetDepth", 'E': "Enqueue", 'R': "Requeue", 'p': "Requeue", 'P': "Requeue"}[ops[i].kind]
 			}
 			if fa[i] == "!panic" {
 				return "panic:" + k
@@ -159,24 +284,14 @@ func (c *ctx) c20seqBatch(hist [][]c20op, class string) {
 		if hi > len(hist) {
 			hi = len(hist)
 		}
-		lines := make([]string, 0, hi-lo)
-		for _, h := range hist[lo:hi] {
-			lines = append(lines, c20opsLine(h))
-		}
-		ans := c.ask(lines)
 		// run the real queue under a progress watchdog
-		type implRes struct {
-			outs  string
-			depth int
-		}
-		impl := make([]implRes, hi-lo)
+		impl := make([]c20implRes, hi-lo)
 		var cur atomic.Int64
 		done := make(chan struct{})
 		go func() {
 			for i, h := range hist[lo:hi] {
 				cur.Store(int64(i))
-				o, d := c20runImpl(h)
-				impl[i] = implRes{c20join(o), d}
+				impl[i] = c20runImpl(h)
 			}
 			close(done)
 		}()
@@ -203,10 +318,22 @@ func (c *ctx) c20seqBatch(hist [][]c20op, class string) {
 		n := hi - lo
 		if stuck >= 0 {
 			n = stuck
-			res.Fail("oracle", lines[stuck], "a sequential history on the real queue blocked for more than 10 s (single goroutine): "+lines[stuck], "seq-deadlock")
+			sl := c20opsLine(hist[lo+stuck])
+			res.Fail("oracle", sl, "a sequential history on the real queue blocked for more than 10 s (single goroutine): "+sl, "seq-deadlock")
 		}
+		lines := make([]string, 0, n)
+		leanLines := make([]string, 0, n)
+		for _, h := range hist[lo : lo+n] {
+			lines = append(lines, c20opsLine(h))
+			leanLines = append(leanLines, c20leanLine(h)) // after the run: `p`/`P` carry their bytes now
+		}
+		ans := c.ask(leanLines)
 		for i := 0; i < n; i++ {
 			h := hist[lo+i]
+			implOuts := c20join(impl[i].outs)
+			for k, v := range impl[i].pins {
+				res.Distribution[k] += v
+			}
 			f := strings.Fields(ans[i])
 			if len(f) != 4 {
 				res.Fail("machinery", lines[i], "driver answered "+ans[i], "driver")
@@ -216,7 +343,7 @@ func (c *ctx) c20seqBatch(hist [][]c20op, class string) {
 			nE, nD := 0, 0
 			key := make([]byte, 0, len(h)*2)
 			for _, o := range h {
-				if o.kind == 'e' || o.kind == 'r' {
+				if strings.ContainsRune("erERpP", rune(o.kind)) {
 					nE++
 				} else if o.kind != 'g' {
 					nD++
@@ -229,9 +356,9 @@ func (c *ctx) c20seqBatch(hist [][]c20op, class string) {
 			res.InDomain++
 			res.Count("seq:" + class)
 			res.Count(fmt.Sprintf("seq-len:%d", (len(h)+9)/10*10))
-			ci, cs, cm := c20canon(h, impl[i].outs), c20canon(h, spec), c20canon(h, model)
+			ci, cs, cm := c20canon(h, implOuts), c20canon(h, spec), c20canon(h, model)
 			if (lo+i)%50021 == 0 {
-				res.Sample(map[string]any{"history": lines[i], "impl": impl[i].outs, "model": model, "spec": spec})
+				res.Sample(map[string]any{"history": lines[i], "impl": implOuts, "model": model, "spec": spec})
 			}
 			if cm != cs {
 				res.Fail("machinery", lines[i], "model and list spec disagree: model "+model+" spec "+spec, "model-vs-spec")
@@ -239,13 +366,16 @@ func (c *ctx) c20seqBatch(hist [][]c20op, class string) {
 			wantState := fmt.Sprintf("%d:%d:", impl[i].depth, impl[i].depth)
 			if ci != cs {
 				sig := "seq-wrong-result:" + c20firstDiff(h, ci, cs)
-				res.Fail("oracle", lines[i], fmt.Sprintf("history %s: real queue returned %s, the list specification says %s", lines[i][8:], impl[i].outs, spec), sig)
+				res.Fail("oracle", lines[i], fmt.Sprintf("history %s: real queue returned %s, the list specification says %s", lines[i][8:], implOuts, spec), sig)
 			} else if !strings.HasPrefix(mstate, wantState) {
 				// same results but a different final depth than the model's (depth = token = slice length)
 				res.Fail("oracle", lines[i], fmt.Sprintf("history %s: real queue ends with GetDepth()=%d, the list holds %s chunk(s)", lines[i][8:], impl[i].depth, mstate[strings.LastIndex(mstate, ":")+1:]), "seq-wrong-result:final-depth")
 			}
 			if ci != cm {
-				res.Fail("correspondence", lines[i], fmt.Sprintf("history %s: real queue %s ; model %s", lines[i][8:], impl[i].outs, model), "seq-impl-vs-model")
+				res.Fail("correspondence", lines[i], fmt.Sprintf("history %s: real queue %s ; model %s", lines[i][8:], implOuts, model), "seq-impl-vs-model")
+			}
+			if impl[i].note != "" {
+				res.Fail("oracle", lines[i], fmt.Sprintf("history %s: bytes the consumer had already obtained changed afterwards: %s", lines[i][8:], impl[i].note), "seq-result-overwritten")
 			}
 		}
 		if stuck >= 0 {
@@ -291,10 +421,21 @@ func c20parseConc(line string) (cfg c20stress.Config, race, ok bool) {
 	return cfg, race, true
 }
 
+// c20deadlocks counts stress runs that hit their watchdog; after two, further runs are skipped (each
+// would only wait for its own watchdog).
+var c20deadlocks int
+
 func (c *ctx) c20stressOne(cfg c20stress.Config) {
 	res := c.res
 	line := c20concLine(cfg, false)
+	if c20deadlocks >= 2 && c.replay == "" {
+		res.Count("conc:skipped-after-two-watchdog-hits")
+		return
+	}
 	rep := c20stress.Run(cfg)
+	if rep.Violation == "conc-deadlock" {
+		c20deadlocks++
+	}
 	res.Case(line, true)
 	res.InDomain++
 	res.Count(fmt.Sprintf("conc:procs=%d", cfg.Procs))
@@ -355,6 +496,10 @@ func (c *ctx) c20raceBinary() (string, string) {
 func (c *ctx) c20raceOne(bin string, cfg c20stress.Config) {
 	res := c.res
 	line := c20concLine(cfg, true)
+	if c20deadlocks >= 2 && c.replay == "" {
+		res.Count("conc:skipped-after-two-watchdog-hits")
+		return
+	}
 	cmd := exec.Command(bin, "-seed", strconv.FormatUint(cfg.Seed, 10), "-chunks", strconv.Itoa(cfg.Chunks),
 		"-procs", strconv.Itoa(cfg.Procs), "-timeout", "120s")
 	cmd.Env = append(os.Environ(), "GORACE=halt_on_error=1 exitcode=66")
@@ -397,6 +542,9 @@ func (c *ctx) c20raceOne(bin string, cfg c20stress.Config) {
 	for k, v := range rep.Calls {
 		res.Distribution["conc-call:"+k] += v
 	}
+	if rep.Violation == "conc-deadlock" {
+		c20deadlocks++
+	}
 	if rep.Violation != "" {
 		res.Fail(c20kind(rep.Violation), line, rep.Detail, rep.Violation)
 	}
@@ -411,9 +559,304 @@ func c20kind(sig string) string {
 	return "oracle"
 }
 
+// ---- integration layer: a real channel.Channel over a scripted transport ----
+
+func c20chanLine(cfg c20stress.ChanConfig, race bool) string {
+	h, r := 0, 0
+	if cfg.Huge {
+		h = 1
+	}
+	if race {
+		r = 1
+	}
+	return fmt.Sprintf("c20 chan seed=%d kind=%s huge=%d race=%d", cfg.Seed, cfg.Kind, h, r)
+}
+
+func c20parseChan(line string) (cfg c20stress.ChanConfig, race, ok bool) {
+	f := strings.Fields(line)
+	if len(f) < 3 || f[0] != "c20" || f[1] != "chan" {
+		return cfg, false, false
+	}
+	for _, kv := range f[2:] {
+		p := strings.SplitN(kv, "=", 2)
+		if len(p) != 2 {
+			continue
+		}
+		switch p[0] {
+		case "seed":
+			cfg.Seed, _ = strconv.ParseUint(p[1], 10, 64)
+		case "kind":
+			cfg.Kind = p[1]
+		case "huge":
+			cfg.Huge = p[1] == "1"
+		case "race":
+			race = p[1] == "1"
+		}
+	}
+	return cfg, race, cfg.Kind != ""
+}
+
+// c20chanWorker is the child side: run the scenarios listed in the input file, par at a time, and
+// append one JSON line {"i":index,"rep":report} per finished scenario to the output file.
+func c20chanWorker(in, out string, par int) {
+	var cfgs []c20stress.ChanConfig
+	b, err := os.ReadFile(in)
+	if err != nil || json.Unmarshal(b, &cfgs) != nil {
+		fmt.Fprintln(os.Stderr, "c20 chan worker: cannot read", in)
+		os.Exit(3)
+	}
+	f, err := os.OpenFile(out, os.O_CREATE|os.O_WRONLY|os.O_APPEND, 0o644)
+	if err != nil {
+		os.Exit(3)
+	}
+	var mu sync.Mutex
+	var wg sync.WaitGroup
+	var stuck atomic.Int64
+	sem := make(chan struct{}, par)
+	for i := range cfgs {
+		if stuck.Load() >= 6 {
+			// six scenarios already ran into their watchdog: the rest would only wait as well
+			mu.Lock()
+			fmt.Fprintf(f, "{\"i\":%d,\"rep\":{\"kind\":\"skipped\"}}\n", i)
+			mu.Unlock()
+			continue
+		}
+		wg.Add(1)
+		sem <- struct{}{}
+		go func(i int) {
+			defer wg.Done()
+			defer func() { <-sem }()
+			cfgs[i].Record = true
+			rep := c20stress.RunChan(cfgs[i])
+			if v := rep.Violation; v == "chan-timeout" || v == "chan-deadlock" {
+				stuck.Add(1)
+			}
+			jb, _ := json.Marshal(struct {
+				I   int                  `json:"i"`
+				Rep c20stress.ChanReport `json:"rep"`
+			}{i, rep})
+			mu.Lock()
+			f.Write(append(jb, '\n'))
+			mu.Unlock()
+		}(i)
+	}
+	wg.Wait()
+	f.Close()
+}
+
+// c20chanChild runs cfgs in one child process; ok[i] says whether scenario i reported back.
+func (c *ctx) c20chanChild(cfgs []c20stress.ChanConfig, par int) (reps []c20stress.ChanReport, ok []bool, stderr string) {
+	reps = make([]c20stress.ChanReport, len(cfgs))
+	ok = make([]bool, len(cfgs))
+	in, _ := os.CreateTemp("", "c20-chan-in-*")
+	out, _ := os.CreateTemp("", "c20-chan-out-*")
+	defer os.Remove(in.Name())
+	defer os.Remove(out.Name())
+	jb, _ := json.Marshal(cfgs)
+	in.Write(jb)
+	in.Close()
+	out.Close()
+	cmd := exec.Command(os.Args[0], "C20", "-tier", c.tier, "-driver", c.driver,
+		"-replay", fmt.Sprintf("c20 chanworker in=%s out=%s par=%d", in.Name(), out.Name(), par))
+	var eb bytes.Buffer
+	cmd.Stderr = &eb
+	_ = cmd.Run()
+	if b, err := os.ReadFile(out.Name()); err == nil {
+		for _, l := range bytes.Split(b, []byte("\n")) {
+			var rec struct {
+				I   int                  `json:"i"`
+				Rep c20stress.ChanReport `json:"rep"`
+			}
+			if len(l) > 0 && json.Unmarshal(l, &rec) == nil && rec.I >= 0 && rec.I < len(cfgs) {
+				reps[rec.I], ok[rec.I] = rec.Rep, true
+			}
+		}
+	}
+	return reps, ok, eb.String()
+}
+
+// c20chanChildren runs all scenarios in one child; the scenarios that were in flight when the child
+// died are re-run one by one, each in a child of its own, to find the one that kills the process.
+func (c *ctx) c20chanChildren(cfgs []c20stress.ChanConfig) []c20stress.ChanReport {
+	par := vlib.Conc(8)
+	reps, ok, stderr := c.c20chanChild(cfgs, par)
+	var missing []int
+	for i := range cfgs {
+		if !ok[i] {
+			missing = append(missing, i)
+		}
+	}
+	if len(missing) == 0 {
+		return reps
+	}
+	excerpt := func(s string) string {
+		if i := strings.Index(s, "panic:"); i >= 0 {
+			s = s[i:]
+		} else if i := strings.Index(s, "fatal error:"); i >= 0 {
+			s = s[i:]
+		}
+		// keep the library frames
+		var keep []string
+		for _, l := range strings.Split(s, "\n") {
+			if len(keep) < 2 || strings.Contains(l, "scrapligo/") {
+				keep = append(keep, strings.TrimSpace(l))
+			}
+			if len(keep) > 14 {
+				break
+			}
+		}
+		return strings.Join(keep, " | ")
+	}
+	found := false
+	tried := 0
+	for _, i := range missing {
+		reps[i].Kind = "victim"
+		if tried >= 2*par+2 {
+			continue // scenarios after the crash point were never started
+		}
+		tried++
+		for attempt := 0; attempt < 2 && !found; attempt++ {
+			r1, ok1, e1 := c.c20chanChild(cfgs[i:i+1], 1)
+			if ok1[0] {
+				reps[i] = r1[0]
+				if r1[0].Violation != "" {
+					break
+				}
+				continue
+			}
+			found = true
+			reps[i] = c20stress.ChanReport{Kind: cfgs[i].Kind, Dims: map[string]string{}, Violation: "chan-panic",
+				Detail: fmt.Sprintf("the process died while this scenario ran alone (a panic in one of the library's goroutines cannot be recovered): %s", excerpt(e1))}
+		}
+	}
+	if !found {
+		// not reproduced alone: report the death on the first scenario that was in flight
+		i := missing[0]
+		reps[i] = c20stress.ChanReport{Kind: cfgs[i].Kind, Dims: map[string]string{}, Violation: "chan-panic",
+			Detail: fmt.Sprintf("the process running %d scenarios died (not reproduced by the in-flight scenarios alone): %s", len(cfgs), excerpt(stderr))}
+	}
+	return reps
+}
+
+// c20chanBatch runs integration scenarios in parallel (they mostly sleep), judges them with the Go
+// side of the oracle and replays each through the Lean byte-level reader with the model's own
+// normalisation of the transport reads.
+func (c *ctx) c20chanBatch(cfgs []c20stress.ChanConfig) {
+	res := c.res
+	// the scenarios run in a child process of this binary: a panic in one of the library's own
+	// goroutines (read loop, the goroutine of an operation, the login goroutine) cannot be
+	// recovered and would take the whole harness down
+	reps := c.c20chanChildren(cfgs)
+	var lines []string
+	var idx []int
+	for i, rep := range reps {
+		if rep.Kind == "skipped" {
+			res.Count("chan:skipped-after-six-watchdog-hits")
+			continue
+		}
+		if rep.Kind == "victim" {
+			res.Count("chan:in-flight-when-another-scenario-killed-the-process")
+			continue
+		}
+		line := c20chanLine(cfgs[i], false)
+		res.Case(line, true)
+		res.InDomain++
+		res.Count("chan:kind=" + rep.Kind)
+		for k, v := range rep.Dims {
+			if k != "err-at" {
+				res.Count("chan:" + k + "=" + v)
+			}
+		}
+		res.Distribution["chan-reads"] += rep.Reads
+		res.Distribution["chan-reads-of-length-0"] += rep.EmptyRead
+		res.Distribution["chan-reads-normalising-to-a-nil-chunk"] += rep.NilChunks
+		res.Distribution["chan-bytes"] += rep.Bytes
+		res.Distribution["chan-operations"] += rep.Ops
+		if rep.Violation != "" {
+			res.Fail("oracle", line, rep.Detail, rep.Violation)
+			continue
+		}
+		ev := "."
+		if len(rep.Events) > 0 {
+			ev = strings.Join(rep.Events, ",")
+		}
+		lines = append(lines, "c20 e2e "+rep.ReadsHex+" "+ev)
+		idx = append(idx, i)
+	}
+	for k, a := range c.ask(lines) {
+		i := idx[k]
+		line := c20chanLine(cfgs[i], false)
+		f := strings.Fields(a)
+		res.TracesVsImpl++
+		if len(f) != 3 {
+			res.Fail("machinery", line, "driver answered "+a[:c20min(len(a), 200)], "driver")
+			continue
+		}
+		if f[0] != vlib.Hex(reps[i].Stream) {
+			st, _ := vlib.UnHex(f[0])
+			res.Fail("correspondence", line, fmt.Sprintf("normalised stream of the transport reads: channel/read.go (as mirrored with util.StripANSI) gives %d bytes, the model (Chan.stream with the extracted ANSI pattern) %d bytes (kind %s, %v)", len(reps[i].Stream), len(st), reps[i].Kind, reps[i].Dims), "chan-normalisation-impl-vs-model")
+			continue
+		}
+		if f[1] != "ok" || f[2] != "-" {
+			res.Fail("oracle", line, fmt.Sprintf("the operations' results of this run are not accepted by the model's byte-level FIFO reader (Chan.consumeB, theorem chan_end_to_end): %s, %d bytes left (kind %s, %v)", f[1], len(f[2])/2, reps[i].Kind, reps[i].Dims), "chan-reader-rejects")
+		}
+	}
+}
+
+func c20min(a, b int) int {
+	if a < b {
+		return a
+	}
+	return b
+}
+
+// c20raceChan runs integration scenarios in the -race child.
+func (c *ctx) c20raceChan(bin string, seed uint64, n int, only string) {
+	res := c.res
+	args := []string{"-mode", "chan", "-seed", strconv.FormatUint(seed, 10), "-n", strconv.Itoa(n), "-par", strconv.Itoa(vlib.Conc(8))}
+	if only != "" {
+		args = append(args, "-kind", only)
+	}
+	cmd := exec.Command(bin, args...)
+	cmd.Env = append(os.Environ(), "GORACE=halt_on_error=1 exitcode=66")
+	var stdout, stderr bytes.Buffer
+	cmd.Stdout, cmd.Stderr = &stdout, &stderr
+	err := cmd.Run()
+	line := fmt.Sprintf("c20 chanrace seed=%d n=%d kind=%s", seed, n, only)
+	res.Case(line, true)
+	res.InDomain++
+	res.Count("chan-race-batches")
+	if strings.Contains(stderr.String(), "DATA RACE") {
+		var locs []string
+		for _, l := range strings.Split(stderr.String(), "\n") {
+			l = strings.TrimSpace(l)
+			if i := strings.Index(l, "/scrapligo/"); i >= 0 && len(locs) < 2 && !strings.Contains(l, "verifgo") {
+				locs = append(locs, l[i+1:])
+			}
+		}
+		d := stderr.String()
+		res.Fail("oracle", line, "race detector (channel integration run): "+strings.Join(locs, " vs ")+"\n"+d[:c20min(len(d), 900)], "race")
+		return
+	}
+	var out struct {
+		Runs       int                      `json:"runs"`
+		Skipped    int                      `json:"skipped"`
+		Violations []c20stress.ChanViolation `json:"violations"`
+	}
+	if json.Unmarshal(bytes.TrimSpace(stdout.Bytes()), &out) != nil {
+		e := stderr.String()
+		res.Fail("oracle", line, fmt.Sprintf("channel integration child died (%v): %s", err, e[:c20min(len(e), 600)]), "chan-panic")
+		return
+	}
+	res.Distribution["chan-race-runs"] += out.Runs - out.Skipped
+	for _, v := range out.Violations {
+		res.Fail("oracle", c20chanLine(c20stress.ChanConfig{Seed: v.Seed, Kind: v.Kind, Huge: v.Huge}, true), v.Detail, v.Violation)
+	}
+}
+
 func runC20(c *ctx) {
 	res := c.res
-	res.Rule = "sequential: every history of the exact length L (quick 6, thorough 7) over {Enqueue A, Enqueue B, Requeue A, Requeue B, Dequeue, DequeueAll, GetDepth} (every shorter history is a prefix of one of them) + random histories up to 200 calls over chunks incl. empty / long / repeated; real util.Queue vs Lean Seq model vs list spec, all results and final depth. concurrent: one producer + one consumer goroutine on the real queue, GOMAXPROCS 1/2/4/16, consumer checks its stream against the producer's through a push-back reader (also replayed by the Lean reader `consume` on recorded runs), GetDepth bounds, nil-only-when-empty, watchdog; the same under -race in a child process. non-trivial = history with at least one insert and one removal (distinct by history) / every stress run (distinct by configuration)"
+	res.Rule = "sequential: every history of the exact length L (quick 6, thorough 7) over {Enqueue A, Enqueue B, Requeue A, Requeue B, Dequeue, DequeueAll, GetDepth} (every shorter history is a prefix), every history of length 5 (thorough 6) over {Enqueue A/B, Dequeue, DequeueAll, put back the last result, put back its second half, Enqueue(nil), Requeue(nil), GetDepth} + random histories up to 200 calls over chunks incl. empty / nil / 64 KiB / repeated; real util.Queue vs Lean Seq model vs list spec: all results, final depth, returned slices must not change afterwards (DequeueAll buffers are overwritten by the caller), Dequeue nil-ness pinned. integration: real channel.Channel over a scripted transport in a child process (kinds read, readall, mixed, prompt, explicit, fuzzy, getprompt, login-ssh, login-telnet, read-err, eof x read sizes 1..300 KiB x reads of length 0 / normalising to empty or nil x CR/ANSI x delays x feeding x channel log), judged end to end: normalised transport bytes = bytes operations obtained ++ bytes left, put-backs first, channel log = stream; replayed by the Lean reader consumeB with the model's normalisation; same under -race. concurrent: one producer + one consumer goroutine on the real queue (chunks of 1 byte .. 68 KiB), GOMAXPROCS 1/2/4/16, consumer checks its stream through a push-back reader (also replayed by the Lean reader `consume`), GetDepth bounds, nil-only-when-empty, watchdog; the same under -race in a child process. non-trivial = history with at least one insert and one removal (distinct by history) / every stress or integration run (distinct by configuration)"
 	if c.replay != "" {
 		if ops, ok := c20parseLine(c.replay); ok {
 			c.c20seqBatch([][]c20op{ops}, "replay")
@@ -437,6 +880,59 @@ func runC20(c *ctx) {
 			}
 			return
 		}
+		if strings.HasPrefix(c.replay, "c20 chanworker ") {
+			in, out, par := "", "", 1
+			for _, kv := range strings.Fields(c.replay)[2:] {
+				p := strings.SplitN(kv, "=", 2)
+				switch p[0] {
+				case "in":
+					in = p[1]
+				case "out":
+					out = p[1]
+				case "par":
+					par, _ = strconv.Atoi(p[1])
+				}
+			}
+			c20chanWorker(in, out, par)
+			return
+		}
+		if cfg, race, ok := c20parseChan(c.replay); ok {
+			if race {
+				bin, why := c.c20raceBinary()
+				if bin == "" {
+					res.Note("race child unavailable: %s", why)
+					return
+				}
+				c.c20raceChan(bin, cfg.Seed, 1, cfg.Kind+fmt.Sprintf(":%v", cfg.Huge))
+				return
+			}
+			for i := 0; i < 3 && len(res.Findings) == 0; i++ { // the runtime's schedule is not replayable: a few times
+				c.c20chanBatch([]c20stress.ChanConfig{cfg})
+			}
+			return
+		}
+		if strings.HasPrefix(c.replay, "c20 chanrace ") {
+			var seed uint64
+			var n int
+			kind := ""
+			for _, kv := range strings.Fields(c.replay)[2:] {
+				p := strings.SplitN(kv, "=", 2)
+				switch p[0] {
+				case "seed":
+					seed, _ = strconv.ParseUint(p[1], 10, 64)
+				case "n":
+					n, _ = strconv.Atoi(p[1])
+				case "kind":
+					kind = p[1]
+				}
+			}
+			if bin, why := c.c20raceBinary(); bin != "" {
+				c.c20raceChan(bin, seed, n, kind)
+			} else {
+				res.Note("race child unavailable: %s", why)
+			}
+			return
+		}
 		res.Fail("machinery", c.replay, "unparsable replay line", "driver")
 		return
 	}
@@ -447,6 +943,13 @@ func runC20(c *ctx) {
 		res.Count("skeleton:differs")
 		res.Note("early warning, not gating: statement skeleton of util/queue.go is not the one the model's step programs were written from (%s); re-inspect ScrapliModel/Queue.lean and ScrapliModel/QueueSkeleton.lean", sk)
 	}
+	t0 := time.Now()
+	var phases []string
+	phase := func(name string) {
+		phases = append(phases, fmt.Sprintf("%s %.1fs", name, time.Since(t0).Seconds()))
+		t0 = time.Now()
+	}
+	defer func() { res.Note("phase times: %s", strings.Join(phases, ", ")) }()
 	r := c.rng
 	A, B := []byte("A"), []byte("Bb")
 	alphabet := []c20op{{'e', A}, {'e', B}, {'r', A}, {'r', B}, {'d', nil}, {'a', nil}, {'g', nil}}
@@ -505,9 +1008,40 @@ func runC20(c *ctx) {
 		}
 		c.c20seqBatch(h3, "exhaustive-3-chunks-len-6")
 	}
+	{
+		// calls whose argument depends on earlier results or is nil: put back the last result (`p`) or
+		// its second half (`P`), Enqueue(nil) (`E`), Requeue(nil) (`R`); every history of length L2
+		alpha := []c20op{{'e', A}, {'e', B}, {'d', nil}, {'a', nil}, {'p', nil}, {'P', nil}, {'E', nil}, {'R', nil}, {'g', nil}}
+		L2 := 5
+		if c.thorough() || c.scale > 1 {
+			L2 = 6
+		}
+		var hs [][]c20op
+		ix := make([]int, L2)
+		for {
+			h := make([]c20op, L2)
+			for i := range h {
+				h[i] = alpha[ix[i]]
+			}
+			hs = append(hs, h)
+			i := L2 - 1
+			for ; i >= 0; i-- {
+				ix[i]++
+				if ix[i] < len(alpha) {
+					break
+				}
+				ix[i] = 0
+			}
+			if i < 0 {
+				break
+			}
+		}
+		c.c20seqBatch(hs, fmt.Sprintf("exhaustive-putback-last-and-nil-len-%d", L2))
+	}
 	res.Exhaustive = true
 	res.ExhaustiveOf = fmt.Sprintf("all %d sequential histories of length %d over 7 calls with 2 distinct chunks (hence all shorter ones as prefixes)", total, L)
 
+	phase("exhaustive sequential")
 	// random long histories
 	pool := [][]byte{{}, {0}, []byte("x"), []byte("hello\n"), []byte("router#"), bytes.Repeat([]byte{0xff}, 300), []byte("A"), []byte("A")}
 	var rnd [][]c20op
@@ -523,9 +1057,21 @@ func runC20(c *ctx) {
 				if r.Chance(1, 4) {
 					b = r.Bytes(r.Intn(12), []byte("ab\n#>\x1b"))
 				}
-				if r.Chance(1, 5) {
+				if r.Chance(1, 200) {
+					b = bytes.Repeat([]byte{byte('a' + r.Intn(26))}, 1<<16+r.Intn(5)) // a huge chunk
+				}
+				switch k2 := r.Intn(20); {
+				case k2 < 3:
 					h[j] = c20op{'r', b}
-				} else {
+				case k2 < 5:
+					h[j] = c20op{'p', nil}
+				case k2 < 6:
+					h[j] = c20op{'P', nil}
+				case k2 < 7:
+					h[j] = c20op{'E', nil}
+				case k2 < 8 && r.Chance(1, 2):
+					h[j] = c20op{'R', nil}
+				default:
 					h[j] = c20op{'e', b}
 				}
 			case k < wIns+1:
@@ -540,6 +1086,26 @@ func runC20(c *ctx) {
 	}
 	c.c20seqBatch(rnd, "random")
 
+	phase("random sequential")
+	// integration layer: the queue with its real producer (Channel.read) and consumers (operations)
+	{
+		var cfgs []c20stress.ChanConfig
+		n := c.n(240, 4000)
+		for i := 0; i < n; i++ {
+			cfgs = append(cfgs, c20stress.ChanConfig{Seed: r.U64() >> 1, Kind: c20stress.ChanKinds[i%len(c20stress.ChanKinds)], Huge: i%40 == 39})
+		}
+		c.c20chanBatch(cfgs)
+	}
+	phase("channel integration")
+	// observations, never judged
+	{
+		p, l, cl, st := c20stress.TwoConsumers(r.U64()>>1, c.n(5, 40), 20000)
+		res.Note("observation (outside the property: TWO consumer goroutines, which the library never runs — every operation waits for its reader goroutine): %d rounds: %d ended in an index-out-of-range panic in Dequeue, %d lost/duplicated chunks, %d clean, %d hung", p+l+cl+st, p, l, cl, st)
+		hi, hm := c20stress.HeadRetention()
+		res.Note("observation (memory, no bytes involved): after Dequeue the backing array keeps the handed-out chunk reachable while nothing is enqueued: %v; after 64 further Enqueue calls: %v", hi, hm)
+		res.Note("observation (memory): %s", c20stress.LongRun(c.n(200000, 1000000)))
+	}
+	phase("observations")
 	// concurrent stress, in-process
 	procs := []int{1, 2, 4, 16}
 	chunks := c.n(30000, 500000)
@@ -549,16 +1115,18 @@ func runC20(c *ctx) {
 	}
 	for round := 0; round < rounds; round++ {
 		for _, p := range procs {
-			c.c20stressOne(c20stress.Config{Seed: r.U64() >> 1, Chunks: chunks, Procs: p, Timeout: 90 * time.Second})
+			c.c20stressOne(c20stress.Config{Seed: r.U64() >> 1, Chunks: chunks, Procs: p, Timeout: 45 * time.Second})
 		}
 	}
 	// short recorded runs, replayed by the Lean reader; the consumer stops early so that something is left
 	for i := 0; i < c.n(12, 120); i++ {
 		n := r.Range(20, 400)
-		c.c20stressOne(c20stress.Config{Seed: r.U64() >> 1, Chunks: n, Procs: procs[i%4], StopAfter: r.Range(1, n), Record: true, Timeout: 60 * time.Second})
+		c.c20stressOne(c20stress.Config{Seed: r.U64() >> 1, Chunks: n, Procs: procs[i%4], StopAfter: r.Range(1, n), Record: true, Timeout: 30 * time.Second})
 	}
+	phase("queue stress")
 	// the same stress under the race detector, as a child process
 	bin, why := c.c20raceBinary()
+	phase("race build")
 	if bin == "" {
 		res.Note("race-detector run skipped: %s", why)
 	} else {
@@ -568,6 +1136,9 @@ func runC20(c *ctx) {
 				c.c20raceOne(bin, c20stress.Config{Seed: r.U64() >> 1, Chunks: rc, Procs: p})
 			}
 		}
-		res.Note("race detector: cmd/c20stress built with -race and run as a child for GOMAXPROCS 1/2/4/16")
+		phase("queue stress under -race")
+		c.c20raceChan(bin, r.U64()>>1, c.n(150, 2000), "")
+		phase("channel integration under -race")
+		res.Note("race detector: cmd/c20stress built with -race and run as a child for GOMAXPROCS 1/2/4/16, and for the channel integration scenarios")
 	}
 }
